@@ -61,6 +61,7 @@ pub fn leak_of_history(cfg: &Cfg, seed: u64, calls: &[Call]) -> isize {
                     g.max_opcodes = *b;
                 }
                 Call::Bytes(b) => {
+                    let _w = crate::watch::enter(cfg, b, None);
                     let r = catch_unwind(AssertUnwindSafe(|| g.generate_from_arbitrary(b)));
                     drop(r);
                 }
